@@ -169,3 +169,11 @@ PROPS["C13"] = {
     "level_note": "FractionScalar operations and formatting (str/repr of Arrays) not yet under contract; numpy aliasing is modelled by container identity tokens; arithmetic shape-bounded as C03; floats are reals",
     "trusted": STD_TRUSTED + ["numpy elementwise arithmetic returns new arrays (A5)"],
 }
+
+PROPS["C20"] = {
+    "tasks": lambda tier: VP(QM + ":Quantity.__init__#derived-strings", 2 if tier == "quick" else 3) + [V(QM + ":Quantity.GetUnitName"), V(AVQ + ".GetFormattedSuffix"), V(SC + ".__repr__"), V(QM + ":Quantity.__init__")],
+    "level": "proof",
+    "level_text": "Quantity.__init__ (derived branch) with _MakeStr, _CreateUnitsWithJoinedExponentsString and GetComposingUnitsJoiningExponents, and Quantity.GetUnitName, are executed from their real AST with a token-level string model (a string = sequence of literal text, symbolic names and symbolic integers; concatenation, f-strings, str(int), truthiness exact). For composing maps with symbolic category/unit names and symbolic non-zero integer exponents the resulting category, quantity-type, unit and unit-name strings are proved equal, token by token, to the rendering spec: factors joined per category / quantity type / unit / unit name, numerator factors separated by '.' (unit) or ' * ' (long forms), a single '/' (' / '), '1/' ('1 / ') for a pure reciprocal, exponent as suffix ('m2') or '(x) ** n', zero joined exponents omitted, on every sign / magnitude / name-coincidence path. The composing units/categories tuples mirror the map. Simple quantities store exactly their registered category, quantity type and resolved unit (Quantity.__init__ contract); Scalar.__repr__ and GetFormattedSuffix embed that unit. Complete per number of entries; bounded across it.",
+    "level_note": "number of composing entries: 1-2 (quick), 1-3 (thorough) - shape-bounded; exponents unbounded; 'parsing recovers the joined units' is an argument over the token sequences (separators and trailing digits do not occur in atomic symbols) replayed natively by the derived_strings probe for up to 3 factors, not a solver obligation; Array str/repr not under contract",
+    "trusted": ["pyvc token-level string model (pyvc/strparts.py)", "z3 5.1.0"],
+}
